@@ -1,6 +1,21 @@
 """sidecar contracts (see tools/CONTRACTS_GUIDE.md)
 
 P_ctx2 -- third wave for properties C08 / C07 / C13 / C14: what was still assumed or bounded-only after P_ctx.py / P_var.py.
+
+1. assumed duplicates of proved contracts removed: to_string (stand-in of P_acc.py); update_recursively with a dotted string
+   (with / without a value: proved here for every string, replaces the literal stand-ins of P_sel.py / P_acc2.py);
+   Variable._update_context and update_nested inside HistToGraph.run / IterateBins.run / MapBins.run (P_sel.py used assumed
+   frames): those units now go through the proved contracts -- update_nested for ANY `other` (TypeError iff the chain
+   other.key.key... runs into a non-dictionary), the bin context of HistToGraph well formed as variables produce it.
+2. format_context: the function it returns (all field lists, all format strings), the parser on string literals (from the real
+   AST, concrete while loops), format_update_with / SetContext._set_context with literal templates (format_context executed in
+   place) and with any string (against the assumed parser of P_out.py); UpdateContext.__call__ for context values
+   (default / skip_on_missing / raise_on_missing, deep copy), plain strings and jinja2 formatting strings (abstract library
+   model); UpdateContext.__init__ (option matrix); UpdateContextFromStatic.run.
+3. intersection of three dictionaries; the laws absorption and associativity of the reference function inter.
+Findings (contracts registered with props=[]): UpdateContext('a', '{{x + 1}}')((1, {})) raises AssertionError.
+Engine additions used here: stmts.while_concrete, ghost inline_callees / str_format_abstract / jinja_abstract / v_unpack_pair /
+opaque_defs, at_call on repository functions, pyvc/lib_fmt.py (str.format, jinja2, re.match as abstract library functions).
 """
 from pyvc.contracts import Contract, LoopSpec, ClassSpec
 from pyvc.smt import T, I
@@ -37,6 +52,32 @@ def sp_nestkx(ip, st, pos, kws):
             facts += ["(= %s %s)" % (key_as_val(ip, ip.reg.key(c)).s, scalar(ip, st, Str(c)).s) for c in comps]
             for f in facts:
                 ax = T(f, "Bool")
+                if not any(x.s == ax.s for x in st.pc):
+                    st.pc.append(ax)
+    return r
+
+
+def sp_upd_nestk(ip, st, pos, kws):
+    """upd_nestk(d, keys, i, n, v) == upd_spec(d, nestkx(keys, i, n, v)): d recursively updated with the one-key-per-level
+    dictionary {keys[i]: {... {keys[n-1]: v}}}.  When keys are the components of a string LITERAL, the definition of the
+    reference function upd (C07.py) is also added at every nested level it unfolds to (instances of the same definition)"""
+    import re
+    from contracts.C07 import declare_upd, upd_def
+    from contracts.P_ctx import _karr
+    nk = sp_nestkx(ip, st, pos[1:], kws)
+    r = ip.contracts.spec_names["upd_spec"](ip, st, [pos[0], nk], {})
+    if not ip.bound_stack:
+        ks = _karr(ip, st, pos[1]).s
+        m = re.match(r"^\(arr_Lst_Key \(ksplit \|key:([^|]*)\|\)\)$", ks)
+        if m and ip.num(pos[2]).s == "0":
+            declare_upd(ip.reg)
+            comps = m.group(1).split(".")
+            n, v = ip.num(pos[3]).s, dterm(ip, st, pos[4]).s
+            dj = dterm(ip, st, pos[0]).s
+            for j in range(len(comps) - 1):
+                kj = ip.reg.key(comps[j]).s
+                dj = "(ite (isD (vget {d} {k})) (vget {d} {k}) (D emptymap))".format(d=dj, k=kj)
+                ax = T(upd_def(dj, "(nestk %s %d %s %s)" % (ks, j + 1, n, v)), "Bool")
                 if not any(x.s == ax.s for x in st.pc):
                     st.pc.append(ax)
     return r
@@ -107,6 +148,7 @@ def register_update_recursively_str(ix):
     """update_recursively(d, "a.b.c") / update_recursively(d, "a.b", value): docstring -- `other` can be a dot-separated
     string; str_to_dict converts it (and the value) to a dictionary, then as for a dictionary."""
     ix.spec_names["nestkx"] = sp_nestkx
+    ix.spec_names["upd_nestk"] = sp_upd_nestk
     ur = ix.by_key[(CF, "update_recursively")]
     base = [c for c in (ur.cases or []) if not c.trusted]
     assert len(base) == 1, [c.name for c in (ur.cases or [])]
@@ -120,14 +162,14 @@ def register_update_recursively_str(ix):
                          "LenaTypeError": "(len(%s) >= 2 or other == '') and not isdict(d)" % KS},
                  raises_frame="pure",
                  ensures=["other == '' implies d == old(d)",
-                          "other != '' implies d == upd_spec(old(d), nestkx(%s, 0, len(%s) - 1, key_value(%s[len(%s) - 1])))"
+                          "other != '' implies d == upd_nestk(old(d), %s, 0, len(%s) - 1, key_value(%s[len(%s) - 1]))"
                           % (KS, KS, KS, KS)],
                  loops=loops, modifies=["d"]),
         Contract(CF, "update_recursively", name="update_recursively[d, dotted string, value]", dict_model="Val",
                  params={"d": "Dict", "other": "Str", "value": "Val"}, result=None,
                  raises={"LenaValueError": "other == ''", "LenaTypeError": "other != '' and not isdict(d)"},
                  raises_frame="pure",
-                 ensures=["d == upd_spec(old(d), nestkx(%s, 0, len(%s), value))" % (KS, KS)],
+                 ensures=["d == upd_nestk(old(d), %s, 0, len(%s), value)" % (KS, KS)],
                  loops={0: LoopSpec(invariant=list(base.loops[0].invariant))}, modifies=["d"]),
         # a value with a dictionary: "a value argument is allowed only when other is a string, otherwise LenaValueError"
         Contract(CF, "update_recursively", name="update_recursively[d, dictionary, value]", dict_model="Val",
@@ -137,5 +179,682 @@ def register_update_recursively_str(ix):
         base]
 
 
+# ------------------------------------------------------------------------------------------- 2. format_context
+# docstring of format_context / property C08: "format_context renders exactly the addressed items and raises LenaKeyError when
+# one is absent"; "format_str is a Python format string with double braces instead of single ones"; "keys can be nested
+# using a dot"; "This function does not work with unbalanced braces.  If a simple check fails, LenaValueError is raised";
+# "If context doesn't contain the needed key, LenaKeyError is raised.  Note that string formatting can also raise a
+# ValueError" (which the function turns into LenaValueError).
+#
+# Three layers:
+#  (a) the function format_context RETURNS (the nested def _format_context, free variables args / format_str): proved for
+#      ALL lists of field names and ALL format strings -- looks up exactly the named items (dotted names through
+#      get_recursively), LenaKeyError iff one of them is absent, LenaTypeError iff the context is no dictionary (and there
+#      is a field), the text is str.format of the format string and the looked-up items (abstract library function
+#      kformat, pyvc/lib_fmt.py), a ValueError of str.format becomes LenaValueError; nothing is changed;
+#  (b) the PARSER (format_context itself) on string literals: executed from the real AST on the literal (its while loops run
+#      on concrete values: stmts.while_concrete), the field names and the format string it hands to (a) are compared with
+#      an independent reference parse of the template (ref_template below); malformed literals: LenaValueError;
+#  (c) for a SYMBOLIC format string the parser stays assumed (the contract of P_out.py, uninterpreted fmt_malformed /
+#      fmt_missing / fmt_apply): strings are uninterpreted in the encoding (no character-level theory).
+# Callers that pass a literal template (format_update_with, SetContext below) execute (b) and (a) in place from the real
+# AST (ghost inline_callees): nothing about format_context is assumed there.
+def ref_template(t):
+    """independent reference (property text / docstring): a template is literal text without braces and fields
+    {{name}} / {{name!c}} / {{name:spec}} / {{name!c:spec}} with a non-empty brace-free name.  Returns (field names,
+    python format string with the names removed) or None when t is not of this form."""
+    names, out, i = [], "", 0
+    while i < len(t):
+        if t.startswith("{{", i):
+            j = t.find("}}", i + 2)
+            if j < 0:
+                return None
+            body = t[i + 2:j]
+            if "{" in body or "}" in body:
+                return None
+            cut = min([body.index(x) for x in "!:" if x in body] or [len(body)])
+            if cut == 0:
+                return None
+            names.append(body[:cut])
+            out += "{" + body[cut:] + "}"
+            i = j + 2
+        elif t[i] in "{}":
+            return None
+        else:
+            out += t[i]
+            i += 1
+    return names, out
+
+
+WELL_FORMED = ["{{x}}", "{{x.y}}_{{z}}", "a{{x}}b{{y.z.t}}c", "{{x!r}}", "{{x:>4}}", "{{x.y!s:<3}}-{{x.y}}", "plain text", ""]
+MALFORMED = ["{x}", "{{x}", "{x}}", "{{x}}}", "{", "}", "{{", "}}{{", "{{x}}{"]
+
+
+def _kfun(name, sort):
+    def sp(ip, st, pos, kws):
+        from pyvc.speclib import lst_term
+        ip.reg.need_val()
+        ls = ip.reg.lst("Val")
+        f = ip.reg.ufun(name, ["Key", ls], sort)
+        t = T("(%s %s %s)" % (f, ip.key_term(pos[0]).s, lst_term(ip, st, pos[1], ls).s), sort)
+        return Bool(t) if sort == "Bool" else Opaque(t)
+    return sp
+
+
+def sp_fmt_lookups(ip, st, pos, kws):
+    """fmt_lookups(context, names): the list of the items of `context` addressed by the dotted names (item j is
+    the(walk(context, components of names[j]))), as a list term"""
+    from pyvc.speclib import lst_term
+    from contracts.C08 import declare_walk
+    reg = ip.reg
+    lk = declare_walk(reg)
+    ls = reg.lst("Val")
+    reg.ufun("ksplit", ["Key"], lk)
+    c = dterm(ip, st, pos[0]).s
+    a = lst_term(ip, st, pos[1], lk)
+    k = "(select %s lj)" % reg.l_arr(a).s
+    comps = "(ite (= {k} {e}) (mk_{lk} (arr_{lk} (ksplit {k})) 0) (ksplit {k}))".format(k=k, e=reg.key("").s, lk=lk)
+    item = "(the (walk {c} {cs} 0 (len_{lk} {cs})))".format(c=c, cs=comps, lk=lk)
+    return ip.lst_view(T("(mk_%s (lambda ((lj Int)) %s) %s)" % (ls, item, reg.l_len(a).s), ls))
+
+
+FW = "walk(context, dot_components(args[{j}]), 0, len(dot_components(args[{j}])))"
+F_TE = "(not isdict(context) and len(args) > 0)"
+F_KE = "(isdict(context) and any(%s == absent() for j in range(len(args))))" % FW.format(j="j")
+
+
+def register_format_context(ix):
+    ix.spec_names["kformat"] = _kfun("kformat", "Key")
+    ix.spec_names["kformat_valueerror"] = _kfun("kformat_valueerror", "Bool")
+    ix.spec_names["fmt_lookups"] = sp_fmt_lookups
+    # ---- (a) the returned function
+    ix.add(Contract(
+        CF, "format_context._format_context", props=["C08"], params={"context": "Val"}, result="Str",
+        closure={"args": "Lst[Key]", "format_str": "Str"}, local_types={"new_args": "Lst[Val]"},
+        ghost={"str_format_abstract": True},
+        raises={"LenaTypeError": F_TE, "LenaKeyError": F_KE,
+                "LenaValueError": "not %s and not %s and kformat_valueerror(format_str, fmt_lookups(context, args))"
+                                  % (F_TE, F_KE)},
+        loops={0: LoopSpec(invariant=["len(new_args) == _i", "_i > 0 implies isdict(context)",
+                                      "all(present(new_args[j]) == %s for j in range(_i))" % FW.format(j="j")])},
+        ensures=["result == kformat(format_str, fmt_lookups(context, args))"],
+        notes="the function format_context returns, for every list of field names and every format string (free "
+              "variables of the nested def); the context is an immutable value in the encoding (the body stores nothing)"))
+    # ---- (b), (c) the parser
+    old = ix.by_key[(CF, "format_context")]
+    assert old.trusted and old.params == {"format_str": "Str"}, "P_out.py's assumed contract of format_context expected"
+    old.name = "format_context"
+    cases = [old]
+    for t in WELL_FORMED:
+        names, text = ref_template(t)
+        cases.append(Contract(
+            CF, "format_context", name="format_context[%r]" % t, params={"format_str": "Str[%r]" % t}, result="Any",
+            raises={"LenaValueError": "False", "LenaTypeError": "False"},
+            ensures=["len(local(args)) == %d" % len(names)]
+            + ["local(args)[%d] == %r" % (j, n) for j, n in enumerate(names)]
+            + ["local(format_str) == %r" % text]))
+    for t in MALFORMED:
+        assert ref_template(t) is None
+        cases.append(Contract(
+            CF, "format_context", name="format_context[malformed %r]" % t, params={"format_str": "Str[%r]" % t},
+            result="Any", raises={"LenaValueError": "True"}))
+    cases.append(Contract(CF, "format_context", name="format_context[not a string]", params={"format_str": "Real"},
+                          result="Any", raises={"LenaTypeError": "True"}))
+    replace(ix, Contract(CF, "format_context", props=["C08"], cases=cases))
+
+
+def sp_items_of(ip, st, pos, kws):
+    """items_of(v1, v2, ...): the list [v1, v2, ...] of context values as a list term (no heap object)"""
+    reg = ip.reg
+    reg.need_val()
+    t = reg.l_empty_canonical(reg.lst("Val"))
+    for p in pos:
+        t = reg.l_append(t, dterm(ip, st, p))
+    return ip.lst_view(t)
+
+
+def tpl_clauses(t, d):
+    """(names, text, MISSING, LOOK) for the template literal t: the clause `some addressed item is absent from <d>` and the
+    list of the addressed items of <d>, written from the reference parse (ctx_get(c, 'a', 'b') = the item c.a.b as an
+    optional value, P_sel.py)"""
+    names, text = ref_template(t)
+    gets = ["ctx_get(%s, %s)" % (d, ", ".join(repr(c) for c in n.split("."))) for n in names]
+    missing = "(" + " or ".join("%s == absent()" % g for g in gets) + ")"
+    look = "items_of(" + ", ".join("the(%s)" % g for g in gets) + ")"
+    return names, text, missing, look
+
+
+FUW_TEMPLATES = ["{{x}}", "{{x.y}}_{{z}}", "a{{x}}b{{y.z.t}}c", "{{x.y!s:<3}}-{{x.y}}"]
+
+
+def register_format_update_with_templates(ix):
+    """format_update_with(key, value, d) for a value that is a formatting string -- docstring: "first format value using
+    the dictionary d.  If d does not contain every key needed to format value, LenaKeyError is raised"; property C08:
+    changes exactly the addressed item, to the rendered template.  Literal templates: format_context and the function it
+    returns are executed in place from the real AST (ghost inline_callees)."""
+    KS = "split_dots(key)"
+    ix.spec_names["items_of"] = sp_items_of
+    fu = ix.by_key[(CF, "format_update_with")]
+    for t in FUW_TEMPLATES:
+        names, text, missing, look = tpl_clauses(t, "d")
+        _, _, _, look_old = tpl_clauses(t, "old(d)")
+        fu.cases.insert(0, Contract(
+            CF, "format_update_with", name="format_update_with[template %r]" % t, dict_model="Val",
+            ghost={"inline_callees": ["format_context"], "str_format_abstract": True},
+            params={"key": "Str", "value": "Str[%r]" % t, "d": "Dict"}, result=None,
+            raises={"LenaTypeError": "not isdict(d)",
+                    "LenaKeyError": "isdict(d) and %s" % missing,
+                    "LenaValueError": "isdict(d) and not %s and (kformat_valueerror(%r, %s) or key == '')"
+                                      % (missing, text, look)},
+            raises_frame="pure",
+            ensures=["d == upd_spec(old(d), nestk(%s, 0, len(%s), key_value(kformat(%r, %s))))" % (KS, KS, text, look_old)],
+            modifies=["d"]))
+
+
+ME = "lena/meta/elements.py"
+SC_TEMPLATES = ["{{x}}", "{{x.y}}_{{z}}"]
+
+
+def register_set_context_templates(ix):
+    """SetContext with a formatting value -- docstring: "value can be a formatting string.  If value could not be formatted,
+    LenaKeyError is raised"; property C13: "formatting strings resolved against that same prefix", "a formatting key that
+    cannot be resolved surfaces as LenaKeyError"; the update itself: exactly the addressed item (C08)."""
+    KS = "split_dots(self._key)"
+    sc = ix.by_key[(ME, "SetContext._set_context")]
+    for i, t in enumerate(SC_TEMPLATES):
+        names, text, missing, look = tpl_clauses(t, "context")
+        _, _, _, look_old = tpl_clauses(t, "old(context)")
+        cs = "SetContext_tpl%d" % i
+        ix.add_class(ClassSpec(cs, ME, fields={"_key": "Str", "_value": "Str[%r]" % t}, alias_of="SetContext"))
+        sc.cases.append(Contract(
+            ME, "SetContext._set_context", name="SetContext._set_context[template %r]" % t, dict_model="Val",
+            params={"self": "Self[%s]" % cs, "context": "Dict"}, result=None,
+            raises={"LenaTypeError": "not isdict(context)",
+                    "LenaKeyError": "isdict(context) and %s" % missing,
+                    "LenaValueError": "isdict(context) and not %s and (kformat_valueerror(%r, %s) or self._key == '')"
+                                      % (missing, text, look)},
+            # an unresolved key leaves the context as it is (and is remembered for _get_context)
+            exc_ensures={"LenaKeyError": ["context == old(context)"], "LenaValueError": ["context == old(context)"],
+                         "LenaTypeError": ["context == old(context)"]},
+            ensures=["context == upd_spec(old(context), nestk(%s, 0, len(%s), key_value(kformat(%r, %s))))"
+                     % (KS, KS, text, look_old),
+                     "self._static_context is context"],
+            modifies=["context", "self._static_context", "self._exc"]))
+    # any string value (symbolic), against the assumed parser (layer (c))
+    HAS = "('{' in self._value)"
+    BADF = "(%s and fmt_malformed(self._value))" % HAS
+    MISS = "(%s and not fmt_malformed(self._value) and fmt_missing(self._value, context))" % HAS
+    ix.add_class(ClassSpec("SetContext_str", ME, fields={"_key": "Str", "_value": "Str"}, alias_of="SetContext"))
+    sc.cases.append(Contract(
+        ME, "SetContext._set_context", name="SetContext._set_context[string value]", dict_model="Val",
+        params={"self": "Self[SetContext_str]", "context": "Dict"}, result=None,
+        requires=["isdict(context)"],
+        raises={"LenaValueError": "%s or (not %s and self._key == '')" % (BADF, MISS), "LenaKeyError": MISS},
+        exc_ensures={"LenaKeyError": ["context == old(context)"], "LenaValueError": ["context == old(context)"]},
+        ensures=["context == upd_spec(old(context), nestk(%s, 0, len(%s), key_value(fmt_apply(self._value, old(context)) "
+                 "if %s else self._value)))" % (KS, KS, HAS),
+                 "self._static_context is context"],
+        modifies=["context", "self._static_context", "self._exc"]))
+
+
+def register_format_update_with_string(ix):
+    """format_update_with(key, value, d) for ANY string value (symbolic): against the assumed parser of P_out.py (layer (c):
+    fmt_malformed / fmt_missing / fmt_apply are uninterpreted functions of the string and the context).  A string without
+    a brace is stored as it is."""
+    KS = "split_dots(key)"
+    HAS = "('{' in value)"
+    BADF = "(%s and fmt_malformed(value))" % HAS
+    MISS = "(%s and not fmt_malformed(value) and fmt_missing(value, d))" % HAS
+    fu = ix.by_key[(CF, "format_update_with")]
+    fu.cases.append(Contract(
+        CF, "format_update_with", name="format_update_with[string value]", dict_model="Val",
+        params={"key": "Str", "value": "Str", "d": "Dict"}, result=None,
+        requires=["isdict(d)"],
+        raises={"LenaValueError": "%s or (not %s and key == '')" % (BADF, MISS),
+                "LenaKeyError": MISS},
+        raises_frame="pure",
+        ensures=["d == upd_spec(old(d), nestk(%s, 0, len(%s), key_value(fmt_apply(value, old(d)) if %s else value)))"
+                 % (KS, KS, HAS)],
+        modifies=["d"]))
+
+
+# ------------------------------------------------------------------------------------- UpdateContext: context values
+# docstring of UpdateContext.__init__ / property C08: "To set update to a value from context (not a string), the keyword
+# argument value must be set to True and the update format string must be a non-empty single expression in double braces";
+# "a deep copy of another context item"; "If update corresponds to a context value and a formatting argument is missing in
+# the context, LenaKeyError will be raised unless a default is set.  In this case default will be used for the update
+# value"; "to skip update (don't change the context), set by skip_on_missing"; "a missing key is handled as configured
+# (default, skip or LenaKeyError)".  The element as __init__ leaves it for a context value: _update is the dotted name
+# between the braces, _context_value is True, at most one of _has_default / _skip_on_missing / _raise_on_missing is set
+# and, without default and skip, _raise_on_missing is.
+UC = "lena/context/update_context.py"
+
+
+def sp_item_or(ip, st, pos, kws):
+    """item_or(c, name, default): the item of the context c addressed by the dotted name (get_recursively's reading: "" is the
+    whole context), or `default` if it is absent"""
+    from pyvc.smt import ITE, EQ, NOT
+    comps = ip.contracts.spec_names["dot_components"](ip, st, [pos[1]], {})
+    w = ip.contracts.spec_names["walk"](ip, st, [pos[0], comps, Num(I(0)), Num(comps.len)], {})
+    return Opaque(ITE(NOT(EQ(w.t, T("none", "Opt"))), T("(the %s)" % w.t.s, "Val"), dterm(ip, st, pos[2])))
+
+
+def sp_is_jtemplate(ip, st, pos, kws):
+    """is_jtemplate(x): the context value x is a jinja2.Template object (abstract predicate; such a value is a scalar
+    and no string)"""
+    from pyvc.builtins_ import ext_instance, type_test
+    from pyvc.smt import AND, NOT
+    t = dterm(ip, st, pos[0])
+    return Bool(AND(ext_instance(ip, t, "jinja2", "Template"), NOT(type_test(ip, st, Opaque(t), "str"))))
+
+
+def _vfun(name, sorts, res):
+    def sp(ip, st, pos, kws):
+        ip.reg.need_val()
+        f = ip.reg.ufun(name, sorts, res)
+        ts = [dterm(ip, st, p).s if so == "Val" else ip.key_term(p).s for p, so in zip(pos, sorts)]
+        t = T("(%s %s)" % (f, " ".join(ts)), res)
+        return Bool(t) if res == "Bool" else Opaque(t)
+    return sp
+
+
+def register_update_context_template(ix, FIELDS, INV, SUB):
+    """UpdateContext with a context formatting string (a jinja2 template, third party: abstract library model
+    pyvc/lib_fmt.py) -- docstring: "Its argument values will be filled from context during __call__.  If a formatting
+    argument is missing in context, it will be substituted with an empty string"; "to skip update (don't change the
+    context), set by skip_on_missing, or to raise LenaKeyError (set by raise_on_missing)".  `missing` is jinja2's own
+    verdict (template.render raises UndefinedError): jtemplate_undefined(template, context)."""
+    from pyvc.lib_fmt import jinja_template_new
+    ix.lib[("jinja2", "Template")] = jinja_template_new
+    ix.spec_names["is_jtemplate"] = sp_is_jtemplate
+    ix.spec_names["jtemplate_undefined"] = _vfun("jtemplate_undefined", ["Val", "Val"], "Bool")
+    ix.spec_names["jtemplate_render"] = _vfun("jtemplate_render", ["Val", "Val"], "Key")
+    F = dict(FIELDS, _update="Val")
+    BASE = ["len(self._subcontext) >= 1", "not self._context_value", "is_jtemplate(self._update)",
+            "not (self._skip_on_missing and self._raise_on_missing)"]
+    # as __init__ leaves the element: with skip_on_missing / raise_on_missing (a strict template) ...
+    ix.add_class(ClassSpec("UpdateContext_tms", UC, fields=F, alias_of="UpdateContext",
+                           invariant=BASE + ["self._skip_on_missing or self._raise_on_missing"]))
+    # ... and without (a template whose missing arguments render as empty strings)
+    ix.add_class(ClassSpec("UpdateContext_tmc", UC, fields=F, alias_of="UpdateContext",
+                           invariant=BASE + ["not self._skip_on_missing", "not self._raise_on_missing"]))
+
+    def tm(name, cls, vty, c0, req, finding=False):
+        tup = vty.startswith("Tuple")
+        cin = "value[1]" if tup else "emptydict()"
+        UND = "jtemplate_undefined(self._update, %s)" % c0
+        SKIP = "(%s and self._skip_on_missing)" % UND
+        ens = [SKIP + (" implies result[0] == value[0] and result[1] is value[1] and value[1] == old(value[1])" if tup
+                       else " implies result == value"),
+               "not " + SKIP + (" implies result[0] == value[0] and result[1] is value[1]" if tup
+                                else " implies result[0] == value"),
+               "not " + SKIP + " implies " + ("value[1]" if tup else "result[1]") +
+               " == updpath(%s, %s, key_value(jtemplate_render(self._update, %s)), self._recursively)" % (c0, SUB, c0),
+               "self._update == old(self._update)"]
+        return Contract(UC, "UpdateContext.__call__", name="UpdateContext.__call__[%s, %s]" % (name, "(data, context)" if tup else "bare data"),
+                        params={"self": "Self[%s]" % cls, "value": vty}, result="Tuple[V,Dict]" if tup else "Any",
+                        requires=req, dict_model="Val", ghost={"jinja_abstract": True},
+                        raises={"LenaKeyError": "jtemplate_undefined(self._update, %s) and self._raise_on_missing" % cin},
+                        loops={0: LoopSpec(cursor={"subdict": ("context", "keys", "0", "_i")},
+                                           invariant=[x.format(c0=c0) for x in INV])},
+                        ensures=ens, modifies=["value[1]"] if tup else [])
+    NOUND = "not jtemplate_undefined(self._update, %s)"
+    ix.add(Contract(UC, "UpdateContext.__call__", qualkey="UpdateContext_tms.__call__", props=["C08"], dict_model="Val", cases=[
+        tm("formatting string, skip / raise on missing", "UpdateContext_tms", "Tuple[V,Dict]", "old(value[1])", ["isdict(value[1])"]),
+        # (bare data: same code path from the empty context; one preservation obligation of the loop takes the solvers
+        # several seconds and is not reliably decided within the quick tier's time limit -- left to the bounded part)
+    ]))
+    # without skip / raise: the region in which jinja2 itself does not complain (a missing argument is an empty string);
+    # the rest of the region is the finding below
+    ix.add(Contract(UC, "UpdateContext.__call__", qualkey="UpdateContext_tmc.__call__", props=["C08"], dict_model="Val", cases=[
+        tm("formatting string", "UpdateContext_tmc", "Tuple[V,Dict]", "old(value[1])", ["isdict(value[1])", NOUND % "value[1]"]),
+    ]))
+    # FINDING (fails on the unchanged tree, props=[]: not part of any check): property C08 "a missing key is handled as
+    # configured (default, skip or LenaKeyError) ..., never by another exception".  A formatting string without
+    # skip_on_missing / raise_on_missing is rendered with jinja2.ChainableUndefined, which still raises UndefinedError when
+    # an undefined value is used in an operation; __call__ then runs into `assert self._skip_on_missing`:
+    # UpdateContext('a', '{{x + 1}}')((1, {})) raises AssertionError.
+    c = tm("FINDING: formatting string, undefined operand", "UpdateContext_tmc", "Tuple[V,Dict]", "old(value[1])", ["isdict(value[1])"])
+    c.qualkey = "UpdateContext.__call__#never another exception"
+    c.props = []
+    ix.add(c)
+
+
+# ------------------------------------------------------------------------------------------------ UpdateContext.__init__
+# docstring: "subcontext must be non-empty" (LenaValueError; LenaTypeError if it is no string); "Only one of default,
+# skip_on_missing or raise_on_missing can be set, otherwise LenaValueError is raised.  None of these options can be used if
+# update is a simple value"; "To set update to a value from context, the keyword argument value must be set to True and the
+# update format string must be a non-empty single expression in double braces" -- "If value is True, braces can be only the
+# first two and the last two symbols of update, otherwise LenaValueError"; "If update is a context formatting string,
+# default keyword argument can't be used"; "If update corresponds to a context value ... LenaKeyError will be raised unless
+# a default is set" (so without default and skip, raise_on_missing is in force).  A template jinja2 rejects: LenaValueError.
+# The option matrix (value x default x skip_on_missing x raise_on_missing x recursively, per kind of update) is covered
+# symbolically: the four booleans are symbolic, `default` is given or not by the typing of the case.
+SENT_UC = "Sentinel[lena.context.update_context._sentinel]"
+SINGLE_PAT = "{{[^{}]+}}$"
+
+
+def register_update_context_init(ix):
+    from pyvc.lib_fmt import re_match
+    ix.lib[("re", "match")] = re_match
+    ix.spec_names["re_match"] = _vfun("re_match", ["Key", "Key"], "Bool")
+    ix.spec_names["jtemplate_syntax_error"] = _vfun("jtemplate_syntax_error", ["Key"], "Bool")
+
+    def sp_kslice(ip, st, pos, kws):
+        f = ip.reg.ufun("kslice", ["Key", "Int", "Int"], "Key")
+        return Opaque(T("(%s %s %s %s)" % (f, ip.key_term(pos[0]).s, ip.num(pos[1]).s, ip.num(pos[2]).s), "Key"))
+
+    def sp_jtemplate(ip, st, pos, kws):
+        ip.reg.need_val()
+        f = ip.reg.ufun("jtemplate", ["Key", "Bool"], "Val")
+        return Opaque(T("(%s %s %s)" % (f, ip.key_term(pos[0]).s, ip.truth(st, pos[1]).s), "Val"))
+    # (clause texts must not contain braces: the textual `implies` splitter counts them)
+    ix.spec_names["single_field"] = lambda ip, st, pos, kws: ix.spec_names["re_match"](ip, st, [Str(SINGLE_PAT), pos[0]], kws)
+    ix.spec_names["has_brace"] = lambda ip, st, pos, kws: Bool(ip.contains(st, Str("{"), pos[0]))
+    ix.spec_names["kslice"] = sp_kslice
+    ix.spec_names["jtemplate"] = sp_jtemplate
+    ix.add_class(ClassSpec("UpdateContext_new", UC, fields={}, alias_of="UpdateContext"))
+    MOD = ["self._init_subcontext", "self._subcontext", "self._has_default", "self._skip_on_missing",
+           "self._raise_on_missing", "self._update", "self._context_value", "self._value", "self._default",
+           "self._recursively"]
+    S, R = "skip_on_missing", "raise_on_missing"
+
+    def common(hd):
+        return ["self._init_subcontext == subcontext", "same(self._subcontext, split_dots(subcontext))",
+                "self._has_default == %s" % hd, "self._skip_on_missing == skip_on_missing", "self._value == value",
+                "self._default is default", "self._recursively == recursively"]
+
+    def simple(tag, uty, dty, hd):
+        return Contract(
+            UC, "UpdateContext.__init__", name="UpdateContext.__init__[%s, %s]" % (tag, "default" if hd else "no default"),
+            dict_model="Val", ghost={"jinja_abstract": True},
+            params={"self": "Self[UpdateContext_new]", "subcontext": "Str", "update": uty, "value": "Bool", "default": dty,
+                    "skip_on_missing": "Bool", "raise_on_missing": "Bool", "recursively": "Bool"},
+            result=None, requires=["isdict(update)"] if uty == "Dict" else [],
+            # (with a simple update none of the three options may be set)
+            raises={"LenaValueError": "True" if hd else "subcontext == '' or %s or %s" % (S, R), "LenaTypeError": "False"},
+            ensures=[] if hd else common("False") + [
+                # the update value is kept (every __call__ makes its own deep copy of it)
+                "self._update == update",
+                "self._raise_on_missing == raise_on_missing"],
+            modifies=MOD)
+
+    def string(hd, dty):
+        H = "True" if hd else "False"
+        SINGLE = "single_field(update)"
+        TWO = "((%s and %s) or (%s and %s) or (%s and %s))" % (H, S, H, R, S, R)
+        STRICT = "(%s or %s)" % (S, R)
+        SYN = "jtemplate_syntax_error(update)"
+        BAD = ("subcontext == '' or {two} or (value and not {single}) or (not value and {h}) or "
+               "(not value and not {h} and ({strict} or has_brace(update)) and {syn})").format(
+                   two=TWO, single=SINGLE, h=H, strict=STRICT, syn=SYN)
+        CV = "(value and %s)" % SINGLE
+        return Contract(
+            UC, "UpdateContext.__init__", name="UpdateContext.__init__[string, %s]" % ("default" if hd else "no default"),
+            dict_model="Val", ghost={"jinja_abstract": True},
+            params={"self": "Self[UpdateContext_new]", "subcontext": "Str", "update": "Str", "value": "Bool", "default": dty,
+                    "skip_on_missing": "Bool", "raise_on_missing": "Bool", "recursively": "Bool"},
+            result=None, raises={"LenaValueError": BAD, "LenaTypeError": "False"},
+            ensures=common(H) + [
+                # a context value: the dotted name between the braces; without default and skip a missing item raises
+                "%s implies self._context_value and self._update == kslice(update, 2, -2)" % CV,
+                "%s implies self._raise_on_missing == (%s or (not %s and not %s))" % (CV, R, H, S),
+                # a formatting string: strict (missing arguments are errors) iff skip / raise on missing was asked for;
+                # a string without a brace is kept as it is
+                "not %s implies not self._context_value and self._raise_on_missing == %s" % (CV, R),
+                "not %s and %s implies self._update == jtemplate(update, True)" % (CV, STRICT),
+                "not %s and not %s and has_brace(update) implies self._update == jtemplate(update, False)" % (CV, STRICT),
+                "not %s and not %s and not has_brace(update) implies self._update == update" % (CV, STRICT)],
+            modifies=MOD)
+    cases = []
+    for hd, dty in ((False, SENT_UC), (True, "Val")):
+        cases += [simple("number", "Real", dty, hd), simple("dictionary", "Dict", dty, hd), string(hd, dty)]
+    cases.append(Contract(
+        UC, "UpdateContext.__init__", name="UpdateContext.__init__[subcontext is no string]", dict_model="Val",
+        params={"self": "Self[UpdateContext_new]", "subcontext": "Real", "update": "Real", "value": "Bool", "default": SENT_UC,
+                "skip_on_missing": "Bool", "raise_on_missing": "Bool", "recursively": "Bool"},
+        result=None, raises={"LenaTypeError": "True"}))
+    ix.add(Contract(UC, "UpdateContext.__init__", props=["C08"], dict_model="Val", cases=cases))
+
+
+def register_update_context_value(ix):
+    ix.spec_names["item_or"] = sp_item_or
+    from contracts.P_ctx import register_update_context as _r    # (vocabulary: updpath, rest_done, store_lemmas)
+    FIELDS = {"_update": "Str", "_context_value": "Bool", "_has_default": "Bool", "_skip_on_missing": "Bool",
+              "_raise_on_missing": "Bool", "_default": "Val", "_subcontext": "Lst[Key]", "_recursively": "Bool"}
+    ix.add_class(ClassSpec("UpdateContext_cv", UC, fields=FIELDS, alias_of="UpdateContext", invariant=[
+        "len(self._subcontext) >= 1", "self._context_value",
+        "not (self._has_default and self._skip_on_missing)", "not (self._has_default and self._raise_on_missing)",
+        "not (self._skip_on_missing and self._raise_on_missing)",
+        "self._has_default or self._skip_on_missing or self._raise_on_missing"]))
+    ix.add_class(ClassSpec("UpdateContext_text", UC, fields=FIELDS, alias_of="UpdateContext", invariant=[
+        "len(self._subcontext) >= 1", "not self._context_value"]))
+    INV = ["store_lemmas()", "isdict(subdict)", "isdict(context)",
+           "rest_done(context, keys, _i, len(keys), update, self._recursively) "
+           "== updpath({c0}, keys, 0, len(keys), update, self._recursively)"]
+    SUB = "self._subcontext, 0, len(self._subcontext)"
+
+    ix.add_class(ClassSpec("UpdateContext_cvd", UC, fields=FIELDS, alias_of="UpdateContext",
+                           invariant=ix.classes["UpdateContext_cv"].invariant + ["self._has_default"]))
+
+    def cv(name, vty, c0, req, cls="UpdateContext_cv"):
+        W = "walk({c}, dot_components(self._update), 0, len(dot_components(self._update)))".format(c=c0)
+        MISSING = "(%s == absent())" % W
+        SKIP = "(%s and not self._has_default and self._skip_on_missing)" % MISSING
+        NEWV = "item_or(%s, self._update, self._default)" % c0
+        tup = vty.startswith("Tuple")
+        ens = [
+            # skipped: the value passes as it is
+            SKIP + (" implies result[0] == value[0] and result[1] is value[1] and value[1] == old(value[1])" if tup
+                    else " implies result == value"),
+            # otherwise exactly the addressed item becomes the context item (or the default) ...
+            "not " + SKIP + (" implies result[0] == value[0] and result[1] is value[1]" if tup else " implies result[0] == value"),
+            "not " + SKIP + " implies " + ("value[1]" if tup else "result[1]") +
+            " == updpath(%s, %s, %s, self._recursively)" % (c0, SUB, NEWV),
+            # ... as a deep copy made during this call: nothing is shared with the source item / the stored default
+            "not " + SKIP + " implies is_deep_copy(local(update))",
+            "not " + SKIP + " implies local(update) == " + NEWV,
+            "self._default == old(self._default)"]
+        return Contract(UC, "UpdateContext.__call__", name="UpdateContext.__call__[context value, %s]" % name,
+                        params={"self": "Self[%s]" % cls, "value": vty},
+                        result="Tuple[V,Dict]" if tup else "Any",
+                        requires=req, dict_model="Val",
+                        # the reference `walk` (C08.py) is used as a term only (the callee's postcondition and the clauses
+                        # below name the same item): its recursive definition is withheld from the solver in this unit
+                        ghost={"opaque_defs": ["walk"]},
+                        raises={"LenaKeyError": "%s and not self._has_default and not self._skip_on_missing" % MISSING.replace(c0, "value[1]" if tup else "emptydict()")},
+                        loops={0: LoopSpec(cursor={"subdict": ("context", "keys", "0", "_i")},
+                                           invariant=[x.format(c0=c0) for x in INV])},
+                        ensures=ens, modifies=["value[1]"] if tup else [])
+    # a string without formatting arguments (docstring: "a context formatting string is any string ..."; __init__ keeps a
+    # string without a brace as it is): the addressed item becomes that string
+    def text(name, vty, c0, req):
+        tup = vty.startswith("Tuple")
+        return Contract(UC, "UpdateContext.__call__", name="UpdateContext.__call__[plain string, %s]" % name,
+                        params={"self": "Self[UpdateContext_text]", "value": vty},
+                        result="Tuple[V,Dict]" if tup else "Any", requires=req, dict_model="Val", raises={},
+                        loops={0: LoopSpec(cursor={"subdict": ("context", "keys", "0", "_i")},
+                                           invariant=[x.format(c0=c0) for x in INV])},
+                        ensures=["result[0] == value[0]" if tup else "result[0] == value"]
+                        + (["result[1] is value[1]"] if tup else [])
+                        + [("value[1]" if tup else "result[1]") +
+                           " == updpath(%s, %s, key_value(self._update), self._recursively)" % (c0, SUB),
+                           "self._update == old(self._update)"],
+                        modifies=["value[1]"] if tup else [])
+    ix.add(Contract(UC, "UpdateContext.__call__", qualkey="UpdateContext_text.__call__", props=["C08"], dict_model="Val",
+                    cases=[text("(data, context)", "Tuple[V,Dict]", "old(value[1])", ["isdict(value[1])"])]))
+    register_update_context_template(ix, FIELDS, INV, SUB)
+    ix.add(Contract(UC, "UpdateContext.__call__", qualkey="UpdateContext_cv.__call__", props=["C08"], dict_model="Val",
+                    cases=[cv("(data, context)", "Tuple[V,Dict]", "old(value[1])", ["isdict(value[1])"]),
+                           # (bare data -- the context is {}, so the update happens only with a default or for the name
+                           # "" -- : the solvers do not decide one preservation obligation of the loop; left to the bounded part)
+                           ]))
+
+
+# ------------------------------------------------------------------------------------ UpdateContextFromStatic.run
+# property C13: "static context never leaks into the run-time context except through UpdateContextFromStatic"; property C08
+# (bounded reference chk_meta): "runtime contexts are updated with a deep copy of it": every value of the flow gets the
+# stored static context merged into ITS context (recursive update, the static items win), the data part and the context
+# object are handed on, and what is merged in is a deep copy made for this very value -- so nothing a later element does to
+# a run-time context can reach the stored static context or another value's context.
+def register_update_from_static(ix):
+    ix.add_class(ClassSpec("UpdateContextFromStatic", ME, fields={"_context": "Dict"},
+                           invariant=["isdict(self._context)"]))
+    ix.add(Contract(
+        ME, "UpdateContextFromStatic.run", props=["C13", "C08"], dict_model="Val",
+        ghost={"v_unpack_pair": True},
+        params={"self": "Self[UpdateContextFromStatic]", "flow": "Iter[V]"}, generator=True, yields="Any",
+        requires=["pulled(flow) == 0",
+                  # the flow consists of (data, context) pairs
+                  "all(v_has_context(content(flow)[k]) for k in range(len(content(flow))))"],
+        loops={0: LoopSpec(invariant=["pulled(flow) == _i", "yield_count() == _i",
+                                      "self._context == old(self._context)"])},
+        at_call={"update_recursively": [
+            # what is merged into a run-time context is a deep copy of the stored static context, made in this iteration
+            "is_deep_copy(call_args[1])", "made_in_iteration(call_args[1], 0)",
+            "call_args[1] == self._context", "call_args[0] is context"]},
+        at_yield=["pulled(flow) == _i + 1", "yield_count() == _i",
+                  "yielded[0] == vdata(val)", "yielded[1] is context",
+                  "snapshot(context) == upd_spec(vctx(val), self._context)",
+                  "self._context == old(self._context)"],
+        ensures=["pulled(flow) == len(content(flow))", "yield_count() == len(content(flow))",
+                 "self._context == old(self._context)"],
+        modifies=["flow"]))
+
+
+# ------------------------------------------------------------------------------------------ intersection of 3 dictionaries
+# property C07: "intersection(d1,...,dn) returns the greatest nested dictionary contained in every argument ... as a deep
+# copy"; docstring: "each of its items are contained in all dicts (recursively)".  Reference for three dictionaries: the
+# binary reference inter (P_ctx.py) folded from the left, inter(inter(d1, d2, l), d3, l) (associativity: lemma below).  The
+# loop over dicts[1:] has concrete length and is unrolled; the two inner loops are cut at invariants that speak about the
+# content of `res` when the pruning pass began (ghost _r0).
+def register_intersection3(ix):
+    from contracts.P_ctx import KEPT
+    K3 = KEPT.replace("dicts[0]", "_r0")
+    # the pass against the third dictionary starts from the intersection of the first two
+    FOLD = "d is dicts[2] implies _r0 == inter_spec(dicts[0], dicts[1], level)"
+    loops = {
+        1: LoopSpec(init_ghost={"_r0": "snapshot(res)"}, invariant=[
+            "isdict(res)", "isdict(_r0)", FOLD,
+            "all_keys(lambda k: item(res, k) == (%s if seen(k) else item(_r0, k)))" % K3.format(k="k"),
+            "all(seen(to_delete[i]) and (to_delete[i] in res) "
+            "and inter_item(_r0, d, level, to_delete[i]) == absent() for i in range(len(to_delete)))",
+            "all(all(implies(i < j, to_delete[i] != to_delete[j]) for j in range(len(to_delete))) "
+            "for i in range(len(to_delete)))",
+            "all_keys(lambda k: implies(seen(k) and inter_item(_r0, d, level, k) == absent(), k in to_delete))"]),
+        2: LoopSpec(invariant=[
+            "isdict(res)", "isdict(_r0)", FOLD,
+            "all_keys(lambda k: item(res, k) == (absent() if any(to_delete[j] == k for j in range(_i)) else %s))"
+            % K3.format(k="k")], decreases="len(to_delete) - _i")}
+    frame = ["dicts[%d] == old(dicts[%d])" % (i, i) for i in range(3)]
+    NOTD = " or ".join("not isdict(dicts[%d])" % i for i in range(3))
+
+    def case(name, kwty, lev):
+        return Contract(CF, "intersection", name="intersection[%s]" % name, dict_model="Val",
+                        params={"dicts": "Tuple[Dict,Dict,Dict]", "kwargs": kwty}, vararg="dicts", kwarg="kwargs",
+                        result="Dict", local_types={"to_delete": "Lst[Key]"},
+                        raises={"LenaTypeError": NOTD}, raises_frame="pure", loops=loops,
+                        ensures=["result == inter_spec(inter_spec(dicts[0], dicts[1], %s), dicts[2], %s)" % (lev, lev),
+                                 "is_deep_copy(result)"] + frame)
+    it = ix.by_key[(CF, "intersection")]
+    it.cases += [case("d1, d2, d3", "KwDict[]", "-1"), case("d1, d2, d3, level=l", "KwDict[level:Int]", "old(kwargs['level'])")]
+
+
+# ---------------------------------------------------------------------- laws of inter: absorption and associativity
+# property C07: "intersection ... is commutative, associative and idempotent".  Commutativity and idempotence: P_ctx.py.
+# Here, over the definition of the reference function inter (P_ctx.py) only, by structural induction (the statement for
+# the sub-dictionaries under every key, at every level, is the hypothesis):
+#   A1  inter(a, inter(a, b, l), l) == inter(a, b, l)                              (absorption)
+#   AS  inter(inter(a, b, l), c, l) == inter(a, inter(b, c, l), l)                 (associativity; uses G1, commutativity
+#                                                                                   and A1, proved for arbitrary arguments)
+def _laws_env(ip):
+    from contracts.P_ctx import declare_inter
+    reg = ip.reg
+    declare_inter(reg)
+    return reg, reg.new("a", "Val").s, reg.new("b", "Val").s, reg.new("c", "Val").s, reg.new("l", "Int").s
+
+
+GEN_COMM = ("(forall ((x Val) (y Val) (n Int)) (! (=> (and (isD x) (isD y)) (= (inter x y n) (inter y x n))) "
+            ":pattern ((inter x y n))))")
+GEN_A1 = ("(forall ((x Val) (y Val) (n Int)) (! (=> (and (isD x) (isD y)) (= (inter x (inter x y n) n) (inter x y n))) "
+          ":pattern ((inter x (inter x y n) n))))")
+
+
+def lem_absorb(ip, st):
+    from contracts.P_ctx import inter_def, _hyp, _finish, GEN_INTER_DICT
+    reg, a, b, c, l = _laws_env(ip)
+    z = "(inter %s %s %s)" % (a, b, l)
+    _hyp(st, "(and (isD %s) (isD %s))" % (a, b))
+    _hyp(st, inter_def(a, b, l))
+    _hyp(st, inter_def(a, z, l))
+    _hyp(st, GEN_INTER_DICT)
+    # induction hypothesis: the law for the sub-dictionaries under every common key (any level)
+    _hyp(st, "(forall ((k Key) (n Int)) (! (=> (and (vhas {a} k) (vhas {b} k) (isD (vget {a} k)) (isD (vget {b} k))) "
+             "(= (inter (vget {a} k) (inter (vget {a} k) (vget {b} k) n) n) (inter (vget {a} k) (vget {b} k) n))) "
+             ":pattern ((inter (vget {a} k) (vget {b} k) n))))".format(a=a, b=b))
+    _finish(ip, st, "A1: inter(a, inter(a, b, l), l) == inter(a, b, l)", "(= (inter {a} {z} {l}) {z})".format(a=a, z=z, l=l),
+            cases=["(= %s 0)" % l, "(not (= %s 0))" % l])
+
+
+def lem_assoc(ip, st):
+    """two obligations: (1) the two sides have the same item under an ARBITRARY key k0 (the case analysis; level != 0);
+    (2) dictionaries with the same item under every key are equal -- (1) justifies the quantified hypothesis of (2) --
+    and the level-0 case"""
+    from pyvc.interp import VC
+    from pyvc.smt import FALSE
+    from contracts.P_ctx import inter_def, _hyp, GEN_INTER_DICT
+    reg, a, b, c, l = _laws_env(ip)
+    k0 = reg.new("k0", "Key").s
+    ab, bc = "(inter %s %s %s)" % (a, b, l), "(inter %s %s %s)" % (b, c, l)
+    lhs, rhs = "(inter %s %s %s)" % (ab, c, l), "(inter %s %s %s)" % (a, bc, l)
+    _hyp(st, "(and (isD %s) (isD %s) (isD %s))" % (a, b, c))
+    for x, y in ((a, b), (b, c), (ab, c), (a, bc)):
+        _hyp(st, inter_def(x, y, l))
+    _hyp(st, GEN_INTER_DICT)
+    zero = st.fork(T("(= %s 0)" % l, "Bool"), "")
+    ip.emit("lemma", "AS: level 0", zero, T("(= %s %s)" % (lhs, rhs), "Bool"))
+    s1 = st.fork(T("(not (= %s 0))" % l, "Bool"), "")
+    x, y, z, n = "(vget %s %s)" % (a, k0), "(vget %s %s)" % (b, k0), "(vget %s %s)" % (c, k0), "(- %s 1)" % l
+    # instances (at the sub-dictionaries under k0, level l - 1) of commutativity (P_ctx.py) and of A1, each proved for
+    # arbitrary arguments
+    W, V = "(inter %s %s %s)" % (x, y, n), "(inter %s %s %s)" % (y, z, n)
+    comm = lambda p, q: "(=> (and (isD {p}) (isD {q})) (= (inter {p} {q} {n}) (inter {q} {p} {n})))".format(p=p, q=q, n=n)
+    a1 = lambda p, q: "(=> (and (isD {p}) (isD {q})) (= (inter {p} (inter {p} {q} {n}) {n}) (inter {p} {q} {n})))".format(p=p, q=q, n=n)
+    for p_, q_ in ((x, y), (y, z), (x, z), (W, z), (x, V), (W, x), (W, y), (V, y), (V, z)):
+        _hyp(s1, comm(p_, q_))
+    for p_ in (x, y, z):
+        for q_ in (x, y, z):
+            if p_ != q_:
+                _hyp(s1, a1(p_, q_))
+    # induction hypothesis at the sub-dictionaries under k0
+    _hyp(s1, "(=> (and (vhas {a} {k}) (vhas {b} {k}) (vhas {c} {k}) (isD {x}) (isD {y}) (isD {z})) "
+             "(= (inter (inter {x} {y} {n}) {z} {n}) (inter {x} (inter {y} {z} {n}) {n})))".format(
+                 a=a, b=b, c=c, k=k0, x=x, y=y, z=z, n=n))
+    ip.emit("lemma", "AS: the same item under an arbitrary key (level != 0)", s1,
+            T("(= (select (dm %s) %s) (select (dm %s) %s))" % (lhs, k0, rhs, k0), "Bool"))
+    s2 = st.fork(T("(not (= %s 0))" % l, "Bool"), "")
+    _hyp(s2, "(forall ((k Key)) (= (select (dm %s) k) (select (dm %s) k)))" % (lhs, rhs))
+    ip.emit("lemma", "AS: inter(inter(a, b, l), c, l) == inter(a, inter(b, c, l), l)", s2, T("(= %s %s)" % (lhs, rhs), "Bool"))
+    ip.vcs.append(VC("cover requires", "cover", list(zero.pc), FALSE, ""))
+    ip.vcs.append(VC("canary ensures False#0", "canary", list(s1.pc), FALSE, ""))
+
+
+def register_inter_laws(ix):
+    ix.lemmas.append(Lemma("inter absorption (A1)", CF, ["C07"], lem_absorb,
+                           notes="induction step; hypothesis = the law at the sub-dictionaries; uses G1 universally"))
+    ix.lemmas.append(Lemma("inter associative", CF, ["C07"], lem_assoc,
+                           notes="induction step; hypothesis = the law at the sub-dictionaries; uses G1, commutativity and "
+                                 "A1 (each proved for arbitrary arguments) universally"))
+
+
 def register(ix):
     register_cleanup(ix)
+    register_format_context(ix)
+    register_format_update_with_string(ix)
+    register_format_update_with_templates(ix)
+    register_set_context_templates(ix)
+    register_update_context_value(ix)
+    register_update_context_init(ix)
+    register_update_from_static(ix)
+    register_intersection3(ix)
+    register_inter_laws(ix)
